@@ -246,7 +246,12 @@ def check(idx: Index, rep: Report, tier: str) -> str:
         defs = [v for _, v in reaching_defs(cfg, unparse(w.iter), cfg.node_of(w)) if v is not None] if isinstance(w.iter, ast.Name) else []
         call = [c for c in calls_in(w) if unparse(c.func) == "self.handle_operation_insertion"][0]
         facts = guard_facts(w, call)
-        if defs and unparse(defs[0]) == "(op,) if isinstance(op, Operation) else op" and unparse(call.args[0]) == unparse(w.target) and not facts:
+        opn = f.node.args.args[1].arg
+        whole = {f"({opn},) if isinstance({opn}, Operation) else {opn}", f"[{opn}] if isinstance({opn}, Operation) else {opn}", f"{opn} if not isinstance({opn}, Operation) else ({opn},)"}
+        parts = {f"({opn},)", f"[{opn}]", opn}
+        dtexts = {unparse(d_) for d_ in defs}
+        iter_ok = bool(defs) and (dtexts <= whole or (dtexts <= parts and opn in dtexts and len(dtexts) == 2))
+        if iter_ok and unparse(call.args[0]) == unparse(w.target) and not facts:
             ok = True
     (r2.ok(f.fq + ":each", f"{f.loc} handle_operation_insertion(op_) for every inserted op") if ok else r2.fail(f.fq + ":each", Finding("C11.R2", f.fq, "insertion-not-each", "handle_operation_insertion is not called unconditionally for every inserted operation", f.loc)))
     # modification notified for every re-routed user
